@@ -111,15 +111,32 @@ def run_layer(case, layer, k=1.0):
     if case['kind'] == 'infinite':
         orig_extrude = layer._extrude
 
+        arcap = []
+
         def rec(where=None):
             ext.append(where)
-            return orig_extrude(where)
+            if not case.get('ar') or len(arcap) >= 3 or k != 1.0:
+                return orig_extrude(where)
+            # numeric data of this extrusion, for the model's `arExtrude` (the normals: same state, same call)
+            horizontal = where in ('left', 'right')
+            A, B = (layer.A_horizontal, layer.B_horizontal) if horizontal else (layer.A_vertical, layer.B_vertical)
+            stencil = layer.stencil_left if horizontal else layer.stencil_bottom
+            cap = {'w': where, 'before': np.array(layer._achromatic_screen, dtype=float), 'A': np.array(A), 'B': np.array(B),
+                   'idx': [int(i) for i in np.flatnonzero(stencil)], 'amp': float(np.sqrt(layer._Cn_squared)),
+                   'rnd': copy.deepcopy(layer.rng).normal(0, 1, size=B.shape[1])}
+            r = orig_extrude(where)
+            cap['after'] = np.array(layer._achromatic_screen, dtype=float)
+            arcap.append(cap)
+            arnew.append(cap)
+            return r
         layer._extrude = rec
     atm = None
     obs = []
+    arnew = []
     for op in case['ops']:
         o = {'op': op, 'status': 'ok'}
         del ext[:]
+        del arnew[:]
         try:
             if op[0] == 'evolve':
                 layer.evolve_until(op[1])
@@ -165,6 +182,7 @@ def run_layer(case, layer, k=1.0):
         o['rng'] = rng_state(layer.rng)
         o['orig'] = rng_state(layer._original_rng)
         o['ext'] = list(ext)
+        o['ar'] = list(arnew)
         o['cn2'] = float(layer.Cn_squared)
         o['L0'] = float(layer.L0)
         o['vel'] = [float(x) for x in np.asarray(layer.velocity).ravel()]
@@ -509,6 +527,50 @@ def layer_lines(case, obs, layer=None):
     return lines, idx
 
 
+def extra_lines(case, obs):
+    """free-standing model evaluations on numbers taken from the run: numeric extrusions (`arExtrude` on the real A, B,
+    stencil, normals, screen) and `phase_for` (`phaseFor` on pixels of the achromatic screen)"""
+    lines, want = [], []
+    mat = lambda M: ';'.join(rat_list([float(x) for x in row]) for row in M)
+    for o in obs:
+        for cap in o.get('ar', []):
+            lines.append('C15 arext %s %d %d %s %s [%s] %s %s %s' % (
+                cap['w'], case['nx'], case['ny'], rat(cap['amp']), rat_list([float(x) for x in cap['before']]),
+                ','.join(str(i) for i in cap['idx']), rat_list([float(x) for x in cap['rnd']]), mat(cap['A']), mat(cap['B'])))
+            want.append(('ar', cap))
+    n = 0
+    for o in obs:
+        if o['op'][0] == 'read' and o['status'] == 'ok' and float(o['op'][1]) != 1.0 and n < 2:
+            n += 1
+            flat1, flat = o['phase1'].ravel(), o['phase'].ravel()
+            for j in (0, flat1.size // 2, flat1.size - 1):
+                lines.append('C15 phasefor %s %s' % (rat(float(flat1[j])), rat(float(o['op'][1]))))
+                want.append(('phasefor', (float(flat[j]), float(flat1[j]), float(o['op'][1]))))
+    return lines, want
+
+
+def compare_extra(ctx, case, want, out):
+    for (kind, w), resp in zip(want, out):
+        ctx.traces_validated += 1
+        if not resp.startswith('ok '):
+            ctx.disagree('C15 ' + kind, {'case': case, 'model': resp[:100], 'impl': 'a value'}); return
+        if kind == 'ar':
+            got = np.array([float(x) for x in parse_rat_list(resp.split()[1])])
+            ref = w['after']
+            ctx.count('infinite:numeric extrusions run by the model (arExtrude)')
+            if got.size != ref.size or np.abs(got - ref).max() > TOL * max(float(np.abs(ref).max()), 1e-300):
+                j = int(np.argmax(np.abs(got - ref))) if got.size == ref.size else -1
+                ctx.disagree('C15 arext', {'case': case, 'where': w['w'], 'flat_index': j,
+                                           'model': 'A.stencil + B.normals*sqrt(Cn^2), then the stacking: %r' % (got[j] if j >= 0 else got.size),
+                                           'impl': '%r' % (ref[j] if j >= 0 else ref.size)}, key='inf-extrude-numeric'); return
+        else:
+            got = float(Fraction(resp.split()[1]))
+            ctx.count('phase_for pixels run by the model (phaseFor)')
+            if abs(got - w[0]) > 4e-16 * abs(got):
+                ctx.disagree('C15 phasefor', {'case': case, 'model': 'a/lambda = %r' % got, 'impl': 'phase_for(%r) = %r at a pixel where phase_for(1) = %r' % (w[2], w[0], w[1])},
+                             key='wavelength'); return
+
+
 def parse_kv(resp):
     return dict(f.split('=', 1) for f in resp.split()[1:])
 
@@ -732,6 +794,8 @@ def decorate(rng, case, live=True):
     Generator object the caller keeps and draws from), parameter changes on the *running* finite layer"""
     ops = case['ops']
     case['heap'] = bool(rng.random() < 0.5)
+    if case['kind'] == 'infinite' and case['nx'] * case['ny'] <= 120 and rng.random() < 0.3:
+        case['ar'] = True        # the first three extrusions are re-computed by the model from the real A, B, stencil, normals
     if case['heap'] and rng.random() < 0.45:
         case['seedobj'] = True
         resets = [i for i, op in enumerate(ops) if op[0] == 'reset']
@@ -974,7 +1038,9 @@ DIRECTED = [
     dict(_layer('infinite', 6, 5, [0.25, 0.0], [['read', 1.0], ['evolve', 1.0], ['read', 1.0], ['cdraw', 2], ['reset', False], ['read', 1.0],
                                                 ['evolve', 1.0], ['read', 1.0], ['reset', True], ['evolve', 2.0], ['read', 1.0], ['cdraw', 1],
                                                 ['reset', False], ['evolve', 2.0], ['read', 1.0]]), heap=True, seedobj=True),
-    dict(_layer('infinite', 5, 7, [0.0, -0.25], [['evolve', 2.0], ['read', 1.0], ['reset', False], ['evolve', 2.0], ['read', 1.0]]), heap=True),
+    dict(_layer('infinite', 5, 7, [0.0, -0.25], [['evolve', 2.0], ['read', 1.0], ['reset', False], ['evolve', 2.0], ['read', 1.0]]), heap=True, ar=True),
+    dict(_layer('infinite', 6, 4, [0.25, 0.25], [['evolve', 1.0], ['read', 0.5], ['setcn2', 2.0 ** -38], ['reset', False], ['evolve', 1.0], ['read', 2.0]]), ar=True),
+    dict(_layer('infinite', 4, 6, [-0.25, 0.0], [['evolve', 3.0], ['read', 1.0]], interp=True), ar=True),
     # the finite layer's lazy noise and cached screen: parameter changes on the running layer
     dict(_layer('finite', 6, 6, [0.25, 0.0], [['read', 1.0], ['setcn2', 2.0 ** -38], ['read', 1.0], ['evolve', 1.0], ['read', 1.0],
                                               ['setl0', 4.0, 'outer_scale'], ['evolve', 2.0], ['read', 1.0], ['setvel', [0.0, 0.25]], ['read', 1.0],
@@ -1060,7 +1126,8 @@ def handle(ctx, case, batch):
         batch.append((case, obs, lines, None))
     else:
         lines, idx = layer_lines(case, obs)
-        batch.append((case, obs, lines, idx))
+        xl, want = extra_lines(case, obs)
+        batch.append((case, obs, lines + xl, (idx, len(lines), want)))
 
 
 def run(ctx):
@@ -1108,7 +1175,9 @@ def run(ctx):
         if case['kind'] == 'noise':
             compare_noise(ctx, case, obs, o)
         else:
-            compare_layer(ctx, case, obs, o, idx)
+            idx, nl, want = idx
+            compare_layer(ctx, case, obs, o[:nl], idx)
+            compare_extra(ctx, case, want, o[nl:])
 
 
 def replay(ctx, case):
